@@ -39,7 +39,7 @@ ASSUMPTIONS["C02"] = ["pointer is 8-aligned and (when non-null) backed by max(to
 
 # ------------------------------------------------------------------ C03 ----
 PLANS["C03"] = dict(
-    quick=[run("dev"), run("rel"), run("asan", procs=4), run("miri", procs=16, density=24, max_cases=110, timeout_s=900)],
+    quick=[run("dev"), run("rel"), run("asan", procs=4), run("miri", procs=16, density=24, max_cases=60, timeout_s=900)],
     thorough=[run("dev"), run("rel"), run("asan", procs=8), run("miri", procs=16, density=40, timeout_s=3000), run("miri-rel", procs=16, density=80, timeout_s=3000)],
     exhaustive=dict(quick=True, thorough=True),
     exhaustive_domain=dict(
@@ -163,11 +163,11 @@ ASSUMPTIONS["C15"] = ["VBE tags carry a defined memory_model byte (values > 7 ar
 
 # ------------------------------------------------------------------ C18 ----
 PLANS["C18"] = dict(
-    quick=[run("dev"), run("rel"), run("asan", procs=8), run("miri", procs=16, density=2, timeout_s=900)],
+    quick=[run("dev"), run("rel"), run("asan", procs=8), run("miri", procs=16, density=4, timeout_s=900)],
     thorough=[run("dev"), run("rel"), run("asan"), run("miri", procs=16, timeout_s=3000), run("miri-rel", procs=16, timeout_s=3000)],
     exhaustive=dict(quick=True, thorough=True),
     exhaustive_domain=dict(
-        quick="descriptor size 0..=128 x version {1, 0, 2, random} x map length in {k*d, k*d+-1, k*d+-8 : k = 0..=4}, standalone and embedded; every prefix of the iteration for len(); Miri: every second case",
+        quick="descriptor size 0..=128 x version {1, 0, 2, random} x map length in {k*d, k*d+-1, k*d+-8 : k = 0..=4}, standalone and embedded; every prefix of the iteration for len(); Miri: every fourth case",
         thorough="same, complete under Miri (dev and release MIR)",
     ),
 )
@@ -176,7 +176,7 @@ RULES["C18"] = ("cases: (desc_size, version, map length, standalone/embedded) wi
 
 # ------------------------------------------------------------------ C19 ----
 PLANS["C19"] = dict(
-    quick=[run("dev"), run("rel"), run("asan", procs=8), run("miri", procs=16, density=3, timeout_s=900)],
+    quick=[run("dev"), run("rel"), run("asan", procs=8), run("miri", procs=16, density=6, timeout_s=900)],
     thorough=[run("dev"), run("rel"), run("asan"), run("miri", procs=16, timeout_s=3000), run("miri-rel", procs=16, density=2, timeout_s=3000)],
     exhaustive_domain=dict(
         quick="entry count 0..=5 x entry size 0..=128 x string-table index {0..=n+1, 2^16, 2^32-1} x section byte length {0, n*e, n*e+-1, n*e+-8} (full cross product for entry sizes 40, 64 and multiples of 8, 1/4 sample elsewhere), via sections() standalone, via elf_sections_tag().sections() and the deprecated elf_sections(); 2000 random conformant tags",
@@ -187,3 +187,174 @@ RULES["C19"] = ("cases: (n, entsize, shndx, section byte length) with raw types 
                 "string-table entry (which points at a harness buffer below 4 GiB); otherwise a panic is required before anything is produced (string-table index outside the tag: by the time a name is resolved). distinct = hash of the case tuple.")
 ASSUMPTIONS["C19"] = ["ELF section names live at an external address (documented exception): the string-table entry's address field is set to a harness-owned buffer",
                       "n = 0 may yield nothing or be rejected", "ElfSection::end_address() is compared only where addr+size does not overflow"]
+
+# ------------------------------------------------------------------ C01 ----
+PLANS["C01"] = dict(
+    quick=[run("dev", procs=8, max_cases=120000, budget_s=35), run("rel", procs=8, max_cases=400000, budget_s=35), run("asan", procs=8, max_cases=150000, budget_s=35, timeout_s=900),
+           run("miri", procs=16, density=4096, budget_s=55, timeout_s=900), run("miri-rel", procs=8, density=8192, budget_s=45, timeout_s=900),
+           run("dev", driver="C01vbe", procs=1, timeout_s=120), run("rel", driver="C01vbe", procs=1, timeout_s=120)],
+    thorough=[run("dev", max_cases=1500000, budget_s=600, timeout_s=3000), run("rel", max_cases=6000000, budget_s=600, timeout_s=3000), run("asan", max_cases=2000000, budget_s=600, timeout_s=3000),
+              run("miri", procs=16, density=4096, budget_s=900, timeout_s=3000), run("miri-rel", procs=16, density=4096, budget_s=900, timeout_s=3000),
+              run("dev", driver="C01vbe", procs=1, timeout_s=120), run("rel", driver="C01vbe", procs=1, timeout_s=120), run("miri", driver="C01vbe", procs=1, timeout_s=300)],
+)
+RULES["C01"] = ("cases: 2/3 boot informations — a spec-conformant region over all 22 kinds + custom types (harness' own encoder, byte-marked contents) that is kept (1/16), hit by 1..3 targeted corruptions of "
+                "total_size / tag sizes / count, stride, index and type fields with boundary values (12/16), blind-mutated (2/16) or fully random (1/16); region = exactly max(total_size, 8) bytes flush against a guard page "
+                "(1/16 left-flush) resp. an exact allocation; if load() succeeds the whole program of safe calls runs (walk, 21 getters + every accessor, both memory maps iterated, palette, checksums, ELF sections incl. deprecated getter, "
+                "modules, Debug of every tag / iterator / the whole structure into a counting sink). 1/3 standalone tags of each kind with hostile sizes and count fields in an allocation of exactly the declared size. "
+                "Monitors: Miri / guard pages / ASan for reads outside, M2 extent containment (view inside its tag), M3 touch, M5 step bounds. Non-trivial: load succeeded and >=1 kind-specific accessor ran (or, standalone, the cast succeeded). distinct = hash of the region / tag bytes.")
+ASSUMPTIONS["C01"] = ["ELF section names: name() is only called when the designated string-table entry points at the harness' name buffer, or lies outside the tag (then it must be rejected)",
+                      "known finding KF-VBE-MEMORY-MODEL: on VBE tags whose memory_model byte is > 7 the call sites mode_info()/Debug are skipped by the main workload and run by the probe driver C01vbe in a child process",
+                      "termination is decided as bounded progress (item counts, Debug output size); the wall-clock watchdog is separate and inconclusive when it fires"]
+LEVEL_NOTES["C01"] = "trusted base: Miri (UB interpreter), the MMU (guard pages), ASan red zones, the harness' extent arithmetic; reads that leave a tag but stay inside the region and influence no returned extent are only visible in the standalone-tag runs"
+
+# ------------------------------------------------------------------ C09 ----
+PLANS["C09"] = dict(
+    quick=[run("dev", procs=8, max_cases=150000, budget_s=30), run("rel", procs=8, max_cases=400000, budget_s=30), run("asan", procs=8, max_cases=150000, budget_s=30, timeout_s=900),
+           run("miri", procs=16, density=4096, budget_s=50, timeout_s=900)],
+    thorough=[run("dev", max_cases=1500000, budget_s=500, timeout_s=3000), run("rel", max_cases=6000000, budget_s=500, timeout_s=3000), run("asan", max_cases=2000000, budget_s=500, timeout_s=3000),
+              run("miri", procs=16, density=4096, budget_s=900, timeout_s=3000), run("miri-rel", procs=16, density=4096, budget_s=900, timeout_s=3000)],
+)
+RULES["C09"] = ("cases: conformant header (11 kinds, defined enum values, 0..10 tags + end tag) kept (1/12), payload words randomised (1/12) or hit by 1..2 boundary-value corruptions of the header length / tag sizes (checksum recomputed so it still loads); "
+                "region = exactly max(length, 16) bytes; inputs where the walk would reach an undefined enum value are outside the property's premise and skipped (counted). If load() succeeds: accessors, full walk, 10 typed getters + accessors, "
+                "requests slice, Debug of header/tags/iterator. Monitors as C01. Non-trivial: loaded and >=1 typed getter returned a tag. distinct = hash of the header bytes.")
+ASSUMPTIONS["C09"] = ["architecture, tag type, tag flags, console flags and relocation preference hold defined values on everything the walk reaches (the property's premise)"]
+
+# ------------------------------------------------------------------ C04 ----
+PLANS["C04"] = dict(
+    quick=[run("dev", budget_s=50), run("rel", budget_s=50), run("asan", procs=8, density=2, budget_s=50), run("miri", procs=16, density=40, budget_s=70, timeout_s=900), run("miri-rel", procs=8, density=160, budget_s=60, timeout_s=900)],
+    thorough=[run("dev", budget_s=500, timeout_s=3000), run("rel", budget_s=500, timeout_s=3000), run("asan", budget_s=400, timeout_s=3000), run("miri", procs=16, density=100, budget_s=900, timeout_s=3000), run("miri-rel", procs=16, density=100, budget_s=900, timeout_s=3000)],
+)
+RULES["C04"] = ("cases: all 256 framebuffer type bytes x 3 colour-info shapes (with a second, well-formed framebuffer tag behind); every kind alone and twice; random conformant regions (<=14 tags over all 22 kinds + custom types, multiplicities by repetition, byte-marked contents, "
+                "EFI map with/without a boot-services tag in either order forced in 1/8). Every typed getter must return the first tag of its type by address (or None); every public accessor is compared with the little-endian value at the specified offset. "
+                "Non-trivial: >=1 field compared. distinct = hash of the region.")
+ASSUMPTIONS["C04"] = ["VBE memory_model in 0..=7; RSDP v2 length in {20, 36}; memory-map entry_size 24; module end > start (spec-conformant tags, as the property states)"]
+
+# ------------------------------------------------------------------ C11 ----
+PLANS["C11"] = dict(
+    quick=[run("dev", budget_s=40), run("rel", budget_s=40), run("asan", procs=8, density=2, budget_s=40), run("miri", procs=16, density=40, budget_s=60, timeout_s=900)],
+    thorough=[run("dev", budget_s=400, timeout_s=3000), run("rel", budget_s=400, timeout_s=3000), run("asan", budget_s=400, timeout_s=3000), run("miri", procs=16, density=100, budget_s=900, timeout_s=3000), run("miri-rel", procs=16, density=100, budget_s=900, timeout_s=3000)],
+)
+RULES["C11"] = ("cases: information-request lists of every length 0..=32; every kind alone and twice; random conformant headers (<=12 tags, both architectures). Header accessors, the walk (address, type, flags, size, payload length, in-memory size of every item) "
+                "and every typed getter/accessor are compared with the reference decode. distinct = hash of the header bytes.")
+
+# ------------------------------------------------------------------ C07 ----
+PLANS["C07"] = dict(
+    quick=[run("dev"), run("rel"), run("asan", procs=8), run("miri", procs=16, density=2, max_cases=3, timeout_s=900)],
+    thorough=[run("dev", timeout_s=3000), run("rel", timeout_s=3000), run("asan", timeout_s=3000), run("miri", procs=16, density=40, budget_s=900, timeout_s=3000)],
+)
+RULES["C07"] = ("cases: per case every public constructor/default() of both crates (22 boot-information constructors incl. 3 framebuffer colour models and both EFI-map constructors, 13 header-tag constructors) with fresh random argument values (every argument byte marked), "
+                "DST content length = case index mod 41. Judged: type field vs. specified number and the kind's ID constant, size field vs. unpadded byte count, bytes vs. the reference encoding, accessor read-back, as_bytes() in place and when embedded after a u32 in a repr(C) struct. "
+                "distinct = hash of (constructor, expected image).")
+ASSUMPTIONS["C07"] = ["constructors that document an argument panic (ModuleTag::new with end <= start, new_from_map with desc_size 0) are called with arguments outside that range",
+                      "the 4 padding bytes inside each EFIMemoryDesc written by new_from_descs are unspecified and masked in the comparison (natively; skipped under Miri)"]
+
+# ------------------------------------------------------------------ C06 ----
+PLANS["C06"] = dict(
+    quick=[run("dev", budget_s=60), run("rel", budget_s=60), run("asan", procs=8, density=2, budget_s=50), run("miri", procs=16, density=400, budget_s=70, timeout_s=900)],
+    thorough=[run("dev", budget_s=900, timeout_s=3400), run("rel", timeout_s=3400), run("asan", density=8, budget_s=600, timeout_s=3000), run("miri", procs=16, density=64, budget_s=900, timeout_s=3000)],
+    exhaustive=dict(quick=False, thorough=True),
+    exhaustive_domain=dict(
+        quick="all subsets of the 22 builder slots of size <= 2 and >= 20 (in random call order), 50000 random subsets, 20000 random call sequences of length 0..=40 with repeats and random contents",
+        thorough="release build: all 2^22 subsets of the 22 builder slots (fixed small contents, random call order) + 400000 random call sequences; dev/ASan/Miri: budgeted slices",
+    ),
+)
+RULES["C06"] = ("cases: histories of builder calls; model = last-wins slot map + append-only vectors (modules, SMBIOS, custom tags). After build(): 8-alignment, load() succeeds, total_size == byte length, walk ends in exactly one end tag, "
+                "multiset of walked tags (bytes up to their size) == model, repeatable kinds in call order. distinct = hash of the call sequence.")
+
+# ------------------------------------------------------------------ C12 ----
+PLANS["C12"] = dict(
+    quick=[run("dev"), run("rel"), run("asan", procs=8), run("miri", procs=16, density=8, budget_s=70, timeout_s=900)],
+    thorough=[run("dev", timeout_s=3000), run("rel", timeout_s=3000), run("asan", timeout_s=3000), run("miri", procs=16, density=16, budget_s=900, timeout_s=3000)],
+    exhaustive=dict(quick=True, thorough=True),
+    exhaustive_domain=dict(
+        quick="native: all 2^10 subsets of the header-builder slots x both architectures (random call order), information-request lists of every length 0..=32 x both architectures, 20000 random call sequences (length <= 24, repeats)",
+        thorough="same with 400000 random call sequences",
+    ),
+)
+RULES["C12"] = ("cases: histories of header-builder calls; model = last-wins slot map. After build(): 8-alignment, load() succeeds, magic, architecture, length == byte length, valid checksum, terminating end tag (type 0, flags 0, size 8), "
+                "multiset of walked tags == model. distinct = hash of (architecture, call sequence, request count).")
+
+# ------------------------------------------------------------------ C08 ----
+C08_ENGINES = ["dev", "rel", "nd-dev", "nd-rel"]
+
+
+def c08_post(results, tier, seed, logdir):
+    """E5: compare the block hashes of the four configurations; on a mismatch
+    re-run that block with full transcripts and report the first differing case."""
+    import subprocess
+    from engines import run_cmd, engine_env, HARNESS
+    by_shard = {}
+    for (engine, args, shard, nshards, *_), r in results:
+        if engine not in C08_ENGINES:
+            continue
+        by_shard.setdefault((shard, nshards), {})[engine] = (r, args)
+    viol, inc = [], []
+    blocks_compared = 0
+    mism = 0
+    for (shard, nshards), per in sorted(by_shard.items()):
+        if set(per) != set(C08_ENGINES):
+            inc.append(f"C08 shard {shard}/{nshards}: not all four configurations ran ({sorted(per)})")
+            continue
+        if any(len(r.summaries) != 1 or r.crashes for r, _ in per.values()):
+            inc.append(f"C08 shard {shard}/{nshards}: a configuration restarted or crashed; block comparison skipped for this shard")
+            continue
+        ref = per["dev"][0].tblocks
+        common = set(ref)
+        for e in C08_ENGINES:
+            common &= set(per[e][0].tblocks)
+        for b in sorted(common):
+            hs = {e: per[e][0].tblocks[b] for e in C08_ENGINES}
+            blocks_compared += 1
+            if len(set(hs.values())) == 1:
+                continue
+            mism += 1
+            if mism > 5:
+                continue
+            # full transcripts of that block in every configuration
+            tr = {}
+            for e in C08_ENGINES:
+                args = list(per[e][1]) + ["--shard", f"{shard}/{nshards}", "--from", str(b), "--max-cases", "64", "--transcript"]
+                p = subprocess.run(run_cmd(e, args), env=engine_env(e), cwd=HARNESS, stdout=subprocess.PIPE, stderr=subprocess.DEVNULL)
+                cases = {}
+                for line in p.stdout.decode("utf-8", "replace").splitlines():
+                    if line.startswith("T "):
+                        _, c, rest = line.split(" ", 2)
+                        cases.setdefault(int(c), []).append(rest)
+                tr[e] = cases
+            found = False
+            for c in sorted(tr["dev"]):
+                lines = {e: tr[e].get(c, []) for e in C08_ENGINES}
+                if len({tuple(v) for v in lines.values()}) > 1:
+                    # first differing line
+                    n = max(len(v) for v in lines.values())
+                    k = next(i for i in range(n) if len({(v[i] if i < len(v) else None) for v in lines.values()}) > 1)
+                    call = (lines["dev"][k] if k < len(lines["dev"]) else lines["rel"][k]).strip().split(" ")[0]
+                    viol.append(dict(property="C08", sig=f"configuration-dependent:{call}", case=c, engine="dev",
+                                     args=list(per["dev"][1]) + ["--transcript"],
+                                     detail=dict(what="the canonical transcript of this case differs between configurations",
+                                                 line_index=k, lines={e: (lines[e][k] if k < len(lines[e]) else None) for e in C08_ENGINES},
+                                                 context={e: lines[e][max(0, k - 3):k + 2] for e in C08_ENGINES})))
+                    found = True
+                    break
+            if not found:
+                inc.append(f"C08 block {b} of shard {shard}/{nshards}: hashes differ but the re-run transcripts agree (non-deterministic?)")
+    cov = dict(blocks_compared=blocks_compared, block_mismatches=mism, configurations=C08_ENGINES,
+               excluded_from_transcript=["Debug output", "MemoryArea::end_address / ModuleTag::module_size / ElfSection::end_address where the arithmetic on decoded values overflows",
+                                         "VBE mode_info()/Debug on memory_model > 7 (known finding KF-VBE-MEMORY-MODEL)", "ELF section names (external addresses differ per process)"])
+    if blocks_compared == 0:
+        inc.append("C08: no block was compared across configurations")
+    return viol, cov, inc
+
+
+PLANS["C08"] = dict(
+    quick=[run(e, max_cases=120000, budget_s=70, timeout_s=900) for e in C08_ENGINES],
+    thorough=[run(e, max_cases=3000000, budget_s=900, timeout_s=3400) for e in C08_ENGINES],
+    post=c08_post,
+    technique="runtime monitoring: cross-configuration transcript differencing (same generated cases in dev/release x default/no-default-features builds, canonical address-free transcripts compared by block hash)",
+)
+RULES["C08"] = ("cases (hash-selected mix): boot informations conformant/corrupted/blind-mutated (3/10), headers conformant/corrupted (2/10), declared sizes below/around each header size (total_size 0..=16, header length 0..=32, tag sizes 0..=16 in both crates) (1/10), "
+                "all 256 framebuffer type bytes (1/10), calc_checksum at extreme arguments and find_header on generated images (1/10), DynSizedStructure::ref_from_slice for the crates' four header types (1/10), hostile standalone tags (1/10). "
+                "Per case a canonical transcript (load verdict, walk, every getter and stored-field accessor, every extent as region offsets, outcomes as Val/Err(kind)/Panic) is hashed; the four configurations must agree block by block (64 cases). "
+                "Budget cut-offs make the configurations cover different prefixes; only blocks present in all four are compared. distinct = hash of (transcript, case index) for cases that reached a decoder.")
+ASSUMPTIONS["C08"] = ["all four binaries are built from the same harness source and run the same deterministic case generator (seeded by VERIF_SEED)",
+                      "header-crate inputs keep enumerated fields defined (C09's premise)"]
